@@ -16,6 +16,8 @@ import LexVerif.Proof.DragonboxEdges32
 import LexVerif.Proof.DragonboxEdges64A
 import LexVerif.Proof.DragonboxEdges64B
 import LexVerif.Proof.GrisuSpec
+import LexVerif.Proof.DragonboxNormalSpec
+import LexVerif.Proof.GrisuMain
 /-!
 # C02 — float→decimal output round-trips exactly and is shortest (property theorems)
 
@@ -26,8 +28,12 @@ comparison relies, and — section "Dragonbox" — theorems about the Lean model
 * the five `floor_log*` literal formulas are the true floor logarithms on their documented domains;
 * the arithmetic kernels (`umul*`, `divide_by_pow10`, `check_div_pow10`, `div_pow10`, `remove_trailing_zeros`) are exact
   for ALL inputs in their stated ranges;
-* `dragonbox_correct` (full statement, a `Prop`) and `dragonbox_correct_shorter_partial`: the
-  `compute_nearest_shorter` branch (every float with a zero mantissa field, both types) returns a pair of `Spec.shortest`.
+* `dragonbox_correct` (full statement) is PROVED (`dragonbox_correct_holds`): `dragonbox_correct_shorter_partial` — the
+  `compute_nearest_shorter` branch (every float with a zero mantissa field, both types, kernel-evaluated) — and
+  `dragonbox_correct_normal` — the `compute_nearest_normal` branch for EVERY mantissa and exponent of binary32 and binary64
+  (subnormals included), from `dragonbox_exact_computation` (per-exponent kernel-checked Farey certificates:
+  `compute_mul`, `compute_delta`, `compute_mul_parity` are exact floors / parities / integrality tests of `n·2^(e-1)·10^k`)
+  and the interval case analysis of the algorithm (`Proof/DragonboxMath.lean`, `Proof/DragonboxNormal*.lean`).
 -/
 namespace LexVerif.Props.C02
 open LexVerif.Spec LexVerif.Model
@@ -153,9 +159,9 @@ theorem remove_trailing_zeros_f64_bound_sharp :
 
 /-! ### the algorithm -/
 
-/-- FULL STATEMENT (not proved in general): for every finite non-zero float of either type the model's `to_decimal`
-does not fault and returns, up to trailing zeros of the significand, one of the pairs of the oracle `Spec.shortest`
-(which round-trips, has the fewest digits and is closest — `Props.RoundNE.shortest_*`). -/
+/-- FULL STATEMENT (proved below: `dragonbox_correct_holds`): for every finite non-zero float of either type the model's
+`to_decimal` does not fault and returns, up to trailing zeros of the significand, one of the pairs of the oracle
+`Spec.shortest` (which round-trips, has the fewest digits and is closest — `Props.RoundNE.shortest_*`). -/
 def dragonbox_correct : Prop :=
   ∀ (t : FTy) (bits : Nat), 0 < bits → bits < (fmtOf t).infBits → dragonboxOk t bits = true
 
@@ -282,7 +288,109 @@ theorem dragonbox_roundtrips_partial (t : FTy) (e : Nat) (h0 : 0 < e) (he : e < 
   simp only [hd] at hok
   simpa using hok
 
-/-! non-vacuity and samples (normal branch, evaluated — NOT a theorem about all inputs) -/
+
+/-! ### the normal branch, all inputs -/
+section Normal
+open LexVerif.Proof.DragonboxExp LexVerif.Proof.DragonboxExact LexVerif.Proof.DragonboxNormalSpec
+open LexVerif.Proof.DragonboxShortest
+
+/-- **exact computation**, every binary exponent `e` of a finite float (254 + 2046 exponents, each certified by the kernel:
+`Proof/Tables/DragonboxExp*.lean`) and EVERY significand `q` that occurs with it: there are `k = -minus_k`, `β`, the cache
+entry `pow5` — exactly the values the model computes — and a fraction `a/b = 2^(e-1)·10^k` such that
+(a) `compute_mul((2q+1)·2^β)` is `⌊(2q+1)·a/b⌋` with its integrality flag, (b) `compute_delta` is `⌊2a/b⌋`,
+(c) `compute_mul_parity` of `2q-1` and `2q` gives the parity of the floor and the integrality of `n·a/b`;
+the only exception is the integrality flag of the CENTRE for the two binary32 inputs `excFloats`
+(`29711844·2^-82`, `29711844·2^-81` of the source comment; `center_flag_wrong_f32` shows the flag is really wrong there). -/
+theorem dragonbox_exact_computation (t : FTy) (e : Int) (h1 : t.denormalExponent ≤ e)
+    (h2 : e ≤ ((2 ^ t.exponentSize.toNat - 2 : Nat) : Int) - t.exponentBias) :
+    ∃ d : ExpData,
+      d.minusK = i32 (floorLog10Pow2 e - t.kappa)
+      ∧ dragonboxPower t (i32 (-d.minusK)) = some d.pow5
+      ∧ i32 (e + floorLog2Pow10 (i32 (-d.minusK))) = (d.beta : Int)
+      ∧ 0 < d.b ∧ (d.a : ℚ) / d.b = (2 : ℚ) ^ (e - 1) * (10 : ℚ) ^ (-d.minusK)
+      ∧ ∀ q, 1 ≤ q → q < 2 ^ (fmtOf t).p → (e ≠ t.denormalExponent → 2 ^ ((fmtOf t).p - 1) ≤ q) →
+          computeMul t (shl64 (shl64 q 1 ||| 1) d.beta) d.pow5
+            = ((2 * q + 1) * d.a / d.b, decide (d.b ∣ (2 * q + 1) * d.a))
+          ∧ computeDelta t d.pow5 d.beta = 2 * d.a / d.b
+          ∧ computeMulParity t (sub64 (shl64 q 1) 1) d.pow5 d.beta
+            = (decide ((2 * q - 1) * d.a / d.b % 2 = 1), decide (d.b ∣ (2 * q - 1) * d.a))
+          ∧ (computeMulParity t (shl64 q 1) d.pow5 d.beta).1 = decide (2 * q * d.a / d.b % 2 = 1)
+          ∧ ((e, q) ∉ excFloats t →
+              (computeMulParity t (shl64 q 1) d.pow5 d.beta).2 = decide (d.b ∣ 2 * q * d.a)) := by
+  obtain ⟨d, F⟩ := facts_of_ok (expOk_all t e h1 h2)
+  refine ⟨d, F.hKm, F.hpow, F.hbetaM, F.hcert.1, x_value F, ?_⟩
+  intro q hq1 hq2 hqn
+  rw [← prec_eq] at hq2 hqn
+  have hN : 2 ^ (prec t + 1) = 2 * 2 ^ prec t := by rw [Nat.pow_succ]; omega
+  have hlo := LexVerif.Proof.DragonboxNormal.nLo_le hq1 hqn
+  have h54 : (2 : Nat) ^ (prec t + 1) ≤ 2 ^ 54 := Nat.pow_le_pow_right (by decide) (prec_le t)
+  have hβ63 : d.beta ≤ 63 := by have := F.hb.2.1; omega
+  have hu : (2 * q + 1) * 2 ^ d.beta < 2 ^ 64 := by
+    have a1 : (2 * q + 1) * 2 ^ d.beta < 2 ^ (prec t + 1) * 2 ^ d.beta :=
+      Nat.mul_lt_mul_of_pos_right (by omega) (Nat.two_pow_pos _)
+    have a2 := F.hb.2.2
+    have a3 : (2 : Nat) ^ (t.qb / 2) ≤ 2 ^ 64 := by cases t <;> decide
+    omega
+  have e1 : shl64 q 1 = 2 * q := LexVerif.Proof.DragonboxBits.shl64_one (by omega)
+  have e2 := LexVerif.Proof.DragonboxBits.twoFc_or_one (m := q) hβ63 hu
+  have e5 : sub64 (2 * q) 1 = 2 * q - 1 := LexVerif.Proof.DragonboxBits.sub64_one (by omega) (by omega)
+  rw [e2, e1, e5]
+  refine ⟨mul_exact F (by omega) (by omega) (by omega) (LexVerif.Proof.DragonboxNormal.not_exc_odd F (by omega)),
+    delta_exact F,
+    parity_exact F (by omega) (by omega) hlo (LexVerif.Proof.DragonboxNormal.not_exc_odd F (by omega)),
+    parity_exact_fst F (by omega) (by omega), fun hx => ?_⟩
+  rw [parity_exact F (n := 2 * q) (by omega) (by omega) (by omega)
+    (LexVerif.Proof.DragonboxNormal.not_exc_even F hx)]
+
+/-- the exclusion in `dragonbox_exact_computation` is necessary: at `e = -81`, `2q = 29711844` the model's flag says
+"`y` is an integer" although `29711844 · 2^-82 · 10^26` is not (`b = 2^56 ∤ 29711844 · 5^26`) -/
+theorem center_flag_wrong_f32 :
+    (match expData .f32 (-81) with
+     | some d => (computeMulParity .f32 29711844 d.pow5 d.beta).2 && !(decide (d.b ∣ 29711844 * d.a))
+     | none => false) = true := by decide +kernel
+
+/-- **the normal branch is correct for all inputs**: every finite float of either type with a non-zero mantissa field
+(all normal floats off the powers of two and all subnormals) is written by the model of `compute_nearest_normal` as a pair
+of `Spec.shortest` -/
+theorem dragonbox_correct_normal (t : FTy) (bits : Nat) (h0 : 0 < bits) (hfin : bits < (fmtOf t).infBits)
+    (hm : bits &&& t.mantissaMask ≠ 0) : dragonboxOk t bits = true :=
+  normal_ok t bits h0 hfin hm
+
+/-- **C02 on the Dragonbox model, all finite non-zero floats of binary32 and binary64** -/
+theorem dragonbox_correct_holds : dragonbox_correct := by
+  intro t bits h0 hfin
+  by_cases hm : bits &&& t.mantissaMask = 0
+  · obtain ⟨e, he0, he1, hb, _⟩ := zero_mantissa_form t bits h0 hfin hm
+    rw [hb]; exact dragonbox_correct_shorter_partial t e he0 he1
+  · exact dragonbox_correct_normal t bits h0 hfin hm
+
+/-- consequence: the model's output for ANY finite non-zero float re-parses (exact `roundNE`) to the same bits, is in
+`Spec.shortest` (hence has the fewest digits and is closest: `Props.RoundNE.shortest_minimal/closest`) -/
+theorem dragonbox_roundtrips (t : FTy) (bits : Nat) (h0 : 0 < bits) (hfin : bits < (fmtOf t).infBits) :
+    ∃ m x, toDecimal t bits = some (m, x) ∧ normDec 20 m x ∈ shortest (fmtOf t) bits ∧
+      roundNE (fmtOf t) (decFrac (normDec 20 m x).1 (normDec 20 m x).2).1 (decFrac (normDec 20 m x).1 (normDec 20 m x).2).2
+        = bits := by
+  have hok := dragonbox_correct_holds t bits h0 hfin
+  obtain ⟨m, x, hd, hr⟩ := dragonboxOk_roundtrips h0 hfin hok
+  refine ⟨m, x, hd, ?_, hr⟩
+  unfold dragonboxOk at hok
+  simp only [hd] at hok
+  simpa using hok
+
+/-- signed zeros: `to_decimal` of `±0` is `(0, 0)` (the sign is written by the caller from the sign bit) -/
+theorem dragonbox_zero (t : FTy) : toDecimal t 0 = some (0, 0) ∧ toDecimal t t.signMask = some (0, 0) := by
+  cases t <;> decide
+
+/-! non-vacuity: the hypotheses of `dragonbox_correct_normal` / `dragonbox_exact_computation` are satisfiable -/
+example : dragonboxOk .f64 0x3FF8000000000000 = true :=
+  dragonbox_correct_normal .f64 0x3FF8000000000000 (by decide) (by decide) (by decide)
+example : dragonboxOk .f32 1 = true := dragonbox_correct_normal .f32 1 (by decide) (by decide) (by decide)
+example : FTy.f64.denormalExponent ≤ 0 ∧ (0 : Int) ≤ ((2 ^ FTy.f64.exponentSize.toNat - 2 : Nat) : Int) - FTy.f64.exponentBias := by
+  decide
+
+end Normal
+
+/-! non-vacuity and samples (normal branch, evaluated) -/
 example : toDecimal .f64 0x3FF8000000000000 = some (15, -1) := by decide +kernel
 example : toDecimal .f32 0x00800000 = some (11754944, -45) := by decide +kernel
 example : dragonboxOk .f64 0x7FEFFFFFFFFFFFFF = true := by decide +kernel
@@ -307,8 +415,8 @@ theorem grisu_cached_power_model (i : Nat) (h : i < LexVerif.Proof.Tables.Grisu.
             (LexVerif.Proof.Tables.Grisu.cachedRows[i].2.2 : Int) - cachedKBias) :=
   GrisuCached.cachedGrisuPower_eq_dump i h
 
-/-- FULL STATEMENT (not proved in general): for every finite non-zero float the model's `grisu` yields 1…17 (f64) /
-1…9 (f32) decimal digit characters without a leading zero whose value `digits·10^k` rounds back to the float -/
+/-- FULL STATEMENT (proved below: `grisu_roundtrip_holds`): for every finite non-zero float the model's `grisu` yields
+1…17 (f64) / 1…9 (f32) decimal digit characters without a leading zero whose value `digits·10^k` rounds back to the float -/
 def grisu_roundtrip : Prop :=
   ∀ (t : FTy) (bits : Nat), 0 < bits → bits < (fmtOf t).infBits → grisuOk t bits = true
 
@@ -333,7 +441,33 @@ theorem grisu_roundtrip_partial :
   · exact List.all_eq_true.mp grisu_samples_f32 1 (by simp)
   · exact List.all_eq_true.mp grisu_samples_f32 0x7F7FFFFF (by simp)
 
+/-- **C02 on the Grisu model (`compact` builds), all finite non-zero floats of binary32 and binary64**: from the
+kernel-checked per-(exponent, shift) certificates of the cached powers (`Proof/Tables/GrisuExp*.lean`: window `-60 … -32`,
+`|c̃ − 10^k/2^e| ≤ 1/2`), `mul` = correctly rounded 64×64 product, the error analysis of the three products (the shrunk
+interval `[m⁻·c̃ + 1, m⁺·c̃ − 1]` lies strictly inside the scaled rounding interval), and the loop invariants of
+`generate_digits` / `round_digit` (`Proof/GrisuDigits*.lean`). -/
+theorem grisu_roundtrip_holds : grisu_roundtrip :=
+  fun t bits h0 hfin => LexVerif.Proof.GrisuMain.grisu_ok t bits h0 hfin
+
+/-- unfolded: the digits are decimal digit characters, 1 … 17 / 9 of them, no leading zero, and re-parse exactly -/
+theorem grisu_roundtrips (t : FTy) (bits : Nat) (h0 : 0 < bits) (hfin : bits < (fmtOf t).infBits) :
+    ∃ ds k, LexVerif.Model.Grisu.grisu t bits = some (ds, k)
+      ∧ (∀ c ∈ ds, 48 ≤ c ∧ c ≤ 57) ∧ 1 ≤ ds.length ∧ ds.length ≤ maxDigits t ∧ ds.head? ≠ some 48
+      ∧ roundNE (fmtOf t) (decFracN (ofDigits 10 (ds.map (· - 48))) k).1 (decFracN (ofDigits 10 (ds.map (· - 48))) k).2
+          = bits := by
+  have h := grisu_roundtrip_holds t bits h0 hfin
+  unfold grisuOk at h
+  cases hg : LexVerif.Model.Grisu.grisu t bits with
+  | none => rw [hg] at h; simp at h
+  | some p =>
+    obtain ⟨ds, k⟩ := p
+    rw [hg] at h
+    simp only [Bool.and_eq_true, List.all_eq_true, decide_eq_true_eq, beq_iff_eq, bne_iff_ne, ne_eq] at h
+    obtain ⟨⟨⟨⟨a, b⟩, c⟩, d⟩, e⟩ := h
+    exact ⟨ds, k, rfl, a, c, b, d, e⟩
+
 example : LexVerif.Model.Grisu.grisu .f64 0x3FF8000000000000 = some ([49, 53], -1) := by decide +kernel
+example : grisuOk .f32 0x3DCCCCCD = true := grisu_roundtrip_holds .f32 0x3DCCCCCD (by decide) (by decide)
 
 end Grisu
 
